@@ -10,13 +10,16 @@ EXPLANATION = ('Value-flow normal forms of NUTSChain::new (constants, sentinel),
                'eps = exp(mu - sqrt(m)/gamma h_bar), eta\' = m^-kappa, eps_bar = exp((1-eta\') ln eps_bar + eta\' ln eps), else eps := eps_bar), and a crate-wide '
                'write-set analysis of the adaptation fields (who writes epsilon, epsilon_bar, m, n_discard, and under which guard) which gives the freeze: once m > n_discard, '
                'eps = eps_bar and neither changes. Positivity beyond "eps is an exp(.)" and realised acceptance rates are not decided.')
-FLOORS = {'obligations': 42}   # counted on the reference tree; fewer instantiated obligations is reported, never passed silently
+FLOORS = {'obligations': 43}   # counted on the reference tree; fewer instantiated obligations is reported, never passed silently
 TECHNIQUE = 'value-flow normal form vs specification table + crate-wide field write-set (guarded writers) analysis'
 CH = 'nuts::NUTSChain'
 
 
 def run(ctx):
     consts(ctx)
+    _st = ctx.anchor('NUTSChain::step', name='step', self_head=CH, container='inherent')
+    narrowing_budget(ctx, 'C04', 'NUTSChain::step + warm-up initialisation', [_st, ctx.helper('nuts.init_chain')], {'numcast': 3},
+                     why='a conversion to a fixed narrower float type (or an f64 -> element-type read-back) on this path changes values for wider element types / back ends (the three confirmed read-backs: the leaf joint in the tree builder, two acceptance ratios in the step-size heuristic)', sp=_st['sp'] if _st else None)
     runner_ctor(ctx)
     init_chain(ctx)
     fre(ctx)
